@@ -44,44 +44,87 @@ INVISIBLE = {"\u2061", "\u2062", "\u2063", "\u2064"}
 # locales: which languages write a decimal comma (CLDR / common typographic practice — NOT read from prefs.rs);
 # Switzerland and Liechtenstein additionally group with an apostrophe
 # --------------------------------------------------------------------------------------------
-LOCALE_DECIMAL = {"en": ".", "en-gb": ".", "zh-tw": ".", "es-mx": ".", "de-li": ".",
-                  "es": ",", "fi": ",", "id": ",", "sv": ",", "vi": ",", "de-ch": None}    # de-ch: only used with an explicit mark
-APOSTROPHE_LOCALES = ("de-ch", "de-li")
+LANGUAGE_DECIMAL = {"en": ".", "zh": ".", "es": ",", "fi": ",", "id": ",", "sv": ",", "vi": ",", "de": ","}
+REGION_DECIMAL = {"es-mx": ".", "es-gt": ".", "es-pa": ".", "es-do": ".", "es-hn": ".", "es-ni": ".", "es-sv": ".", "es-419": ".", "de-li": ".",
+                  "de-ch": None}            # de-ch: practice is disputed (CLDR '.', federal style ','): only used with an explicit mark
+APOSTROPHE_REGIONS = ("ch", "li")
+PLAIN_TAGS = ["en", "en-gb", "zh-tw", "es", "fi", "id", "sv", "vi"]
+# regions that change the separator sets: decimal point where the bare language has a comma, or the apostrophe as group separator
+REGIONAL_TAGS = ["es-mx", "es-gt", "es-pa", "es-do", "es-hn", "es-ni", "es-sv", "es-419", "de-li", "de-ch", "sv-ch", "en-ch", "en-li"]
 
 
-def make_setting(lang, decpref="Auto", custom=None):
-    """custom = (decimal mark, block separators) set through DecimalSeparator=Custom + DecimalSeparators/BlockSeparators"""
+def locale_of(tag):
+    """(decimal mark or None, groups with apostrophe) of a language tag; BCP 47 tags are case-insensitive"""
+    t = tag.lower()
+    parts = t.split("-")
+    dec = REGION_DECIMAL[t] if t in REGION_DECIMAL else LANGUAGE_DECIMAL[parts[0]]
+    return dec, len(parts) > 1 and parts[1] in APOSTROPHE_REGIONS
+
+
+def casings(tag):
+    """lower case, the usual BCP 47 spelling (region in upper case), mixed case, upper-case language"""
+    lang, _, region = tag.partition("-")
+    out = [tag]
+    if region:
+        for v in (lang + "-" + region.upper(), lang + "-" + region.capitalize(), lang.upper() + "-" + region, lang.capitalize() + "-" + region.upper()):
+            if v not in out:
+                out.append(v)
+    else:
+        out.append(lang.upper())
+    return out
+
+
+def make_setting(lang, decpref="Auto", custom=None, via="Language"):
+    """lang: the language tag exactly as it is given to MathCAT; via: the preference that carries it (Language, or LanguageAuto under
+    Language=Auto); custom = (decimal mark, block separators) set through DecimalSeparator=Custom + DecimalSeparators/BlockSeparators"""
+    suffix = "" if via == "Language" else "@" + via
     if custom:
         dec, blocks = custom
-        name = "%s/Custom(%s|%s)" % (lang, dec, blocks.replace(NBSP, "nbsp").replace(NNBSP, "nnbsp"))
+        name = "%s%s/Custom(%s|%s)" % (lang, suffix, dec, blocks.replace(NBSP, "nbsp").replace(NNBSP, "nnbsp"))
     else:
-        dec = decpref if decpref in (".", ",") else LOCALE_DECIMAL[lang]
-        blocks = ("," if dec == "." else ".") + " " + NBSP + NNBSP + ("'" if lang in APOSTROPHE_LOCALES else "")
-        name = "%s/%s" % (lang, decpref)
-    return {"name": name, "lang": lang, "decpref": "Custom" if custom else decpref, "custom": list(custom) if custom else None,
+        locale_dec, apostrophe = locale_of(lang)
+        dec = decpref if decpref in (".", ",") else locale_dec
+        blocks = ("," if dec == "." else ".") + " " + NBSP + NNBSP + ("'" if apostrophe else "")
+        name = "%s%s/%s" % (lang, suffix, decpref)
+    return {"name": name, "lang": lang, "via": via, "decpref": "Custom" if custom else decpref, "custom": list(custom) if custom else None,
             "dec": dec, "blocks": blocks}
 
 
 def all_settings():
     out = []
-    for lang, dec in LOCALE_DECIMAL.items():
-        if dec is not None:
-            out.append(make_setting(lang, "Auto"))
-        out.append(make_setting(lang, "."))
-        out.append(make_setting(lang, ","))
+    for base in PLAIN_TAGS + REGIONAL_TAGS:
+        regional = base in REGIONAL_TAGS
+        for tag in casings(base):
+            for via in ("Language", "LanguageAuto"):
+                if via == "LanguageAuto" and not regional and tag != base:
+                    continue
+                if locale_of(tag)[0] is not None:
+                    out.append(make_setting(tag, "Auto", via=via))
+                # an explicit decimal mark: for the lower-case tags, and for every spelling of the apostrophe regions (the region still counts)
+                if tag == base or locale_of(tag)[1]:
+                    out.append(make_setting(tag, ".", via=via))
+                    out.append(make_setting(tag, ",", via=via))
     out.append(make_setting("en", custom=(".", "'" + NBSP + NNBSP + " ")))
     out.append(make_setting("sv", custom=(",", " " + NBSP + NNBSP)))          # no period groups: 1 . 234 is not a number here
     return out
 
 
+def lang_key(s):
+    return "%s@%s" % (s["lang"], s.get("via", "Language"))
+
+
 def setting_ops(s, language_changed=True):
-    """preference calls that establish the setting; Language first, and DecimalSeparator passes through Auto when the language
+    """preference calls that establish the setting; the language first, and DecimalSeparator passes through Auto when the language
     changes so that the separators are always derived from the *current* pair (order dependence of the two preferences is
     C10/C12's subject, not this property's)"""
     ops = []
     if language_changed:
         ops.append(("set_preference", "DecimalSeparator", "Auto"))
-        ops.append(("set_preference", "Language", s["lang"]))
+        if s.get("via", "Language") == "LanguageAuto":
+            ops.append(("set_preference", "Language", "Auto"))
+            ops.append(("set_preference", "LanguageAuto", s["lang"]))
+        else:
+            ops.append(("set_preference", "Language", s["lang"]))
     ops.append(("set_preference", "DecimalSeparator", s["decpref"]))
     if s["custom"]:
         ops.append(("set_preference", "DecimalSeparators", s["custom"][0]))
@@ -175,9 +218,9 @@ def _el(tag, *kids, **attrs):
 def _ctx_table():
     C = {}
 
-    def add(name, build, fenced=False, left=(), right=(), last=False, needs=None):
+    def add(name, build, fenced=False, left=(), right=(), last=False, needs=None, ends=False):
         C[name] = {"name": name, "build": build, "fenced": fenced, "left": list(left), "right": list(right), "last": last, "needs": needs,
-                   "order": len(C)}
+                   "ends": ends, "order": len(C)}
 
     add("plain", lambda T: math(*T), last=True)
     add("plain_mrow", lambda T: math(mrow(*T)), last=True)
@@ -215,11 +258,14 @@ def _ctx_table():
     add("list_semicolon", lambda T: math(mo("("), mi("x"), mo(";"), *T, mo(")")), fenced=True)
     add("toplist_after_mi", lambda T: math(mi("x"), mo(","), *T), left=[("p", ",")], last=True)
     # end of sentence
-    add("sentence_period", lambda T: math(mi("y"), mo("="), *T, mo(".")), right=[("p", ".")])
-    add("sentence_period_mrow", lambda T: math(mrow(mi("y"), mo("="), *T, mo("."))), right=[("p", ".")])
-    add("sentence_comma", lambda T: math(mi("y"), mo("="), *T, mo(",")), right=[("p", ",")])
+    # ends: the context's right neighbour is the last token of the whole expression (sentence punctuation)
+    add("sentence_period", lambda T: math(mi("y"), mo("="), *T, mo(".")), right=[("p", ".")], ends=True)
+    add("sentence_period_mrow", lambda T: math(mrow(mi("y"), mo("="), *T, mo("."))), right=[("p", ".")], ends=True)
+    add("sentence_comma", lambda T: math(mi("y"), mo("="), *T, mo(",")), right=[("p", ",")], ends=True)
     add("sentence_semicolon", lambda T: math(mi("y"), mo("="), *T, mo(";")))
     add("sentence_question", lambda T: math(mi("y"), mo("="), *T, mo("?")))
+    add("sentence_comma_mrow", lambda T: math(mrow(mi("y"), mo("="), *T, mo(","))), right=[("p", ",")], ends=True)
+    add("sentence_period_sum_mrow", lambda T: math(mrow(mi("a"), mo("+"), mi("b"), mo("="), *T, mo("."))), right=[("p", ".")], ends=True)
     return C
 
 
@@ -257,6 +303,10 @@ def in_must_fold_domain(case):
     if parts[-1][0] == "m" and ctx["last"]:
         return False, "trailing-mark-at-very-end"
     left, right = context_run(ctx, parts, s)
+    if ctx["ends"]:
+        # the mark that ends the whole expression is sentence punctuation by the documented heuristic (no earlier decimal number in
+        # these contexts), whether or not it could also be read as a trailing decimal mark: 'y = 1 , 234 .' is 1,234 and a period
+        right = []
     if left or right:
         run = left + [tuple(p) for p in parts] + right
         segs = leftmost_longest(run, s["dec"], s["blocks"])
@@ -335,8 +385,11 @@ def tokens_for(rng, parts):
                 toks.append(["mspace", rng.choice(MSPACE_WIDTHS)])
             else:
                 toks.append(["mo", NBSP])
+        elif t == "'":
+            # <mo>'</mo> is taken for a prime before numbers are folded (open finding C16-apostrophe-prime): the apostrophe mostly comes as mtext
+            toks.append(["mtext" if rng.random() < 0.75 else "mo", t])
         else:
-            toks.append(["mo", t])
+            toks.append(["mo" if rng.random() < 0.85 else "mtext", t])
     return toks
 
 
@@ -589,7 +642,7 @@ def err_text(r):
 # --------------------------------------------------------------------------------------------
 # judging
 # --------------------------------------------------------------------------------------------
-MATHML_KINDS = ("not-folded", "folded-differently", "split-fails", "absorbed-non-number", "character-lost", "list-comma-absorbed")
+MATHML_KINDS = ("not-folded", "folded-differently", "folded-too-much", "split-fails", "absorbed-non-number", "character-lost", "list-comma-absorbed")
 SKIPPED = {"r": "skipped"}
 
 
@@ -637,7 +690,9 @@ def _judge(case, res, st=None):
             return out
         if ca != cb:
             folded = any(t == "mn" and x == n for t, x in leaves(ca))
-            kind = "folded-differently" if folded else "not-folded"
+            ref_mn = set(x for t, x in leaves(cb) if t == "mn")
+            too_much = any(t == "mn" and x not in ref_mn and n in x and x != n for t, x in leaves(ca))
+            kind = "folded-differently" if folded else "folded-too-much" if too_much else "not-folded"
             return [(kind, "split    %s\n -> %s\nunsplit  %s\n -> %s\nspeech: %r vs %r" % (
                 split_xml(case), show(ca), unsplit_xml(case), show(cb), sa.get("v", err_text(sa)), sb.get("v", err_text(sb))))]
         count("folded_identically")
@@ -742,9 +797,16 @@ def pre_key(kind, case):
     if case["half"] == "fencelist":
         return (kind, "fencelist", case["shape"], case["setting"]["dec"])
     parts = case["parts"]
+    aligned = len(parts) == len(case["tok"])
+    if aligned and case["half"] == "fold" and any(t == "'" and tag == "mo" for (k, t), (tag, _) in zip(parts, case["tok"])):
+        # an apostrophe that comes as <mo> is read as a prime before any folding is tried: whatever else such a case contains cannot be
+        # observed, so all of them form one pre-cluster per kind and decimal mark
+        return (kind, "fold", "apostrophe-as-mo", case["setting"]["dec"])
     seps = "".join(sorted(set("␣" if t in ALL_SPACES else t for k, t in parts if k in ("s", "m"))))
     return (kind, case["half"], case.get("sub"), ctx_family(case["ctx"]), seps, parts[-1][0] == "m", parts[0][0] == "m", case["setting"]["dec"],
-            fraction_grouping(parts))
+            fraction_grouping(parts),
+            # any visible separator that comes as mtext
+            any(k in ("s", "m") and t not in ALL_SPACES and tag == "mtext" for (k, t), (tag, _) in zip(parts, case["tok"])) if aligned else None)
 
 
 def case_size(case):
@@ -837,6 +899,10 @@ def normal_forms(case):
                 t2 = [list(y) for y in tok]
                 t2[i] = ["mtext", NBSP]
                 out.append(_variant(case, tok=t2))
+            elif parts[i][0] in ("s", "m") and tag == "mtext" and x != "'":
+                t2 = [list(y) for y in tok]
+                t2[i] = ["mo", x]               # the usual element for a visible separator
+                out.append(_variant(case, tok=t2))
     s = case["setting"]
     cs = canonical_setting(s)
     if cs["name"] != s["name"]:
@@ -868,7 +934,7 @@ def still_valid(case):
     return len(case["parts"]) >= 2
 
 
-def minimise(d, case, kind, budget=260):
+def minimise(d, case, kind, budget=320):
     """staged greedy minimisation in a fixed order (deterministic => one cause shrinks to one witness at every seed)"""
     if case["half"] == "fencelist":
         return case
@@ -885,7 +951,7 @@ def minimise(d, case, kind, budget=260):
     changed = True
     while changed and calls[0] < budget:
         changed = False
-        for stage in (simpler_contexts, simpler_numbers, normal_forms):
+        for stage in (simpler_contexts, normal_forms, simpler_numbers, normal_forms):
             again = True
             while again and calls[0] < budget:
                 again = False
@@ -992,7 +1058,7 @@ def shard(spec):
     settings = spec["settings"]
     by_lang = {}
     for s in settings:
-        by_lang.setdefault(s["lang"], []).append(s)
+        by_lang.setdefault(lang_key(s), []).append(s)
     langs = sorted(by_lang)
     codes = spec["braille_codes"]
     sess = core.Session(BASE_PREFS)
@@ -1020,7 +1086,7 @@ def shard(spec):
                         if not alive:
                             break
                         half = rng.choice(alive)
-                    s = rng.choice(by_lang[lang]) if (cur_setting is None or cur_setting["lang"] != lang or rng.random() < 0.25) else cur_setting
+                    s = rng.choice(by_lang[lang]) if (cur_setting is None or lang_key(cur_setting) != lang or rng.random() < 0.25) else cur_setting
                     case = make_case(rng, s, half, code)
                     todo[half] -= 1
                     if case is None:
@@ -1028,8 +1094,8 @@ def shard(spec):
                         continue
                     pre = []
                     if cur_setting is None or s["name"] != cur_setting["name"]:
-                        pre += setting_ops(s, language_changed=(cur_lang != s["lang"]))
-                        cur_lang, cur_setting = s["lang"], s
+                        pre += setting_ops(s, language_changed=(cur_lang != lang_key(s)))
+                        cur_lang, cur_setting = lang_key(s), s
                         history = history + [s]
                         if len(history) > 7:
                             history = history[:2] + history[-5:]      # the first settings of the session matter for caches
@@ -1156,6 +1222,23 @@ def _absorbed_all_match(v, rx_builder):
     return v["kind"] == "absorbed-non-number" and bool(bad) and all(rx.match(norm_spaces(t)) for t in bad)
 
 
+def pred_final_punctuation(v, params):
+    """what the unchanged tree gets wrong at the end of a sentence, and nothing else: the mark that ends the expression is (i) a second
+    decimal mark after a number that already has one ('3 . 14 .'), or (ii) a block separator of the locale ('3 . 14 ,', '3 , 14 .').
+    A sentence mark that is the decimal mark after a number WITHOUT one ('1 , 234 .') is handled correctly and is not this finding."""
+    c = v["witness"]["case"]
+    ctx = CONTEXTS.get(c.get("ctx"))
+    if v["kind"] != "not-folded" or c["half"] != "fold" or ctx is None or not ctx["ends"]:
+        return False
+    s, mark = c["setting"], ctx["right"][0][1]
+    if mark == s["dec"]:
+        return any(k == "m" for k, _ in c["parts"])
+    return mark in s["blocks"]
+
+
+core.PREDICATES["c16_final_punctuation"] = pred_final_punctuation
+
+
 def pred_long_lead_group(v, params):
     """get_number_pattern_regex makes the separator optional ('[,]?'), so a lead group of more than three digits followed by
     3-digit groups ('1234,567') is taken for a number"""
@@ -1192,6 +1275,7 @@ def run(tier, seed):
     specs = [{"seed": core.sub_seed(seed, PROP, i), "settings": settings, "braille_codes": codes, "segment": 96,
               "counts": {k: v // nsh for k, v in total.items()}, "time_budget": budget} for i in range(nsh)]
     results = core.run_shards(shard, specs)
+    t_workload = time.time() - t0
     # merge pre-clusters across shards, then shrink one representative per pre-cluster (second, parallel phase)
     reps = {}
     for r in results:
@@ -1205,11 +1289,12 @@ def run(tier, seed):
                     cur.update(rep)
                 cur["count"] = n
     rep_list = [reps[k] for k in sorted(reps)]
-    max_reps = 160 if tier == "quick" else 400
+    max_reps = 400 if tier == "quick" else 800
     dropped = rep_list[max_reps:]
     rep_list = rep_list[:max_reps]
     nshrink = max(1, min(core.NPROC, len(rep_list)))
     shrunk = core.run_shards(shrink_shard, [{"reps": rep_list[i::nshrink]} for i in range(nshrink)]) if rep_list else []
+    t_shrink = time.time() - t0 - t_workload
     stats, errors = core.Stats.merge(list(results) + list(shrunk))
     for rep in dropped:       # more pre-clusters than the shrinking allowance: report them unshrunk rather than hide them
         v = core.violation(rep["kind"], make_sig(rep["kind"], rep["case"]), dict({"case": rep["case"]}, **rep.get("facts", {})), rep["detail"][:1500])
@@ -1218,7 +1303,7 @@ def run(tier, seed):
     known, fixed_failures, extra_v = core.replay_findings(PROP, replay)
     stats.violations.extend(extra_v)
     extra = {"settings_used": [s["name"] for s in settings], "settings_refused_by_this_tree": refused,
-             "pre_clusters": len(reps), "braille_codes": codes,
+             "pre_clusters": len(reps), "workload_phase_s": round(t_workload, 1), "minimisation_phase_s": round(t_shrink, 1), "braille_codes": codes,
              "must_fold_domain": "digit runs as mn, each separator its own token; comma numbers neither inside fences nor next to a context comma; "
                                  "trailing decimal mark not the last token of the expression; number is a segment of the leftmost-longest reading of its run",
              "excluded_from_must_fold (observe-only)": ["comma-number-inside-fences", "comma-number-next-to-comma", "leading-or-trailing-comma", "trailing-mark-at-very-end",
